@@ -23,7 +23,7 @@ U.warm()
 PROP = "C46"
 READY = True
 DRIVER = "dm_dfrows"
-LEAN_MODULES = ["DaskModel.Props.C46"]
+LEAN_MODULES = ["DaskModel.Props.C46", "DaskModel.Props.C46Time"]
 CASE_TIMEOUT_S = 60
 LEVEL_TEXT = (
     "Proved in Lean for all inputs: (1) cum_eq_pandas — the lowered Series cumsum/cumprod/cummax/cummin "
@@ -379,7 +379,7 @@ def _api_ops(inp):
     if k == "rolling":
         return lambda x: getattr(x.rolling(p["window"], min_periods=p.get("min_periods"), center=p.get("center", False)), p["how"])()
     if k == "trolling":
-        return lambda x: getattr(x.rolling(p["window"], min_periods=p.get("min_periods")), p["how"])()
+        return lambda x: getattr(x.rolling(p["window"], min_periods=p.get("min_periods"), center=p.get("center", False)), p["how"])()
     if k == "shift":
         return lambda x: x.shift(p["periods"])
     if k == "diff":
@@ -427,7 +427,8 @@ def gen_time_window(rng):
     kind = rng.choice(["trolling", "trolling", "tmap_overlap"])
     inp = {"cols": {"a": gen_cells_f(rng, n, 0.1), "b": gen_cells_f(rng, n, 0.3)}, "tindex": t, "lens": lens, "kind": kind,
            "column": rng.choice([None, "a", "b"]), "narrow": mode,
-           "params": {"window": f"{w}s", "min_periods": rng.choice([None, 1, 2]), "how": rng.choice(["sum", "mean", "count", "max"])},
+           "params": {"window": f"{w}s", "min_periods": rng.choice([None, 1, 2]), "how": rng.choice(["sum", "mean", "count", "max"]),
+                      "center": kind == "trolling" and rng.random() < 0.35},
            "check_partitions": rng.random() < 0.3}
     return inp
 
@@ -473,8 +474,10 @@ def case_api(ctx, inp):
     except NotImplementedError as e:
         if MSG_SMALL in str(e):
             ctx.branch("api-raised-too-small")
-            if kind in ("trolling", "tmap_overlap"):
+            if kind in ("trolling", "tmap_overlap") and not p.get("center"):
                 ctx.fail("time-based rolling raised 'partition too small' (time windows may span partitions)", observed=str(e)[:200])
+            # a CENTERED time window looks ahead: `_combined_parts` refuses (documented message) when it cannot tell that the
+            # next partition alone covers the look-ahead -- the same explicit refusal as for integer windows
             return
         ctx.fail(f"{kind} raised NotImplementedError", observed=str(e)[:300])
         return
@@ -520,6 +523,8 @@ def case_api(ctx, inp):
         ctx.branch("api-projection-of-result")
     if inp.get("narrow"):
         ctx.branch("api-time-window-narrow-partition-" + str(inp["narrow"]))
+    if kind == "trolling" and p.get("center"):
+        ctx.branch("api-time-window-centered")
 
 
 class _RollSum:
@@ -535,8 +540,84 @@ class _RollSum:
         return ("c46-rollsum", self.w)
 
 
+# ------------------------------------------------------------------------------------------------
+# time-based windows: the timedelta branch of CreateOverlappingPartitions._layer / _tail_timedelta / _combined_parts
+# ------------------------------------------------------------------------------------------------
+
+def _trows(t, cells):
+    return [[int(a), U.NONE if c is None else int(c)] for a, c in zip(t, cells)]
+
+
+def case_toverlap(ctx, inp):
+    import pandas as pd
+    from dask.dataframe.dask_expr._expr import CreateOverlappingPartitions, _tail_timedelta
+    t, cells, lens, W, how, m = inp["tindex"], inp["cells"], inp["lens"], inp["window"], inp["how"], inp["min_periods"]
+    base = pd.Timestamp("2021-01-01")
+    idx = base + pd.to_timedelta(t, unit="s")
+    s = U.mk_series(cells, "float64", index=idx)
+    d = U.from_parts(s, lens)
+    b = U.bounds_of(lens)
+    parts_rows = [_trows(t[b[i]:b[i + 1]], cells[b[i]:b[i + 1]]) for i in range(len(lens))]
+    divs = [int((x - base).total_seconds()) for x in d.divisions]
+    mm = 1 if m is None else m
+    # (a) pandas kernel vs the Lean window function
+    op = lambda x: getattr(x.rolling(f"{W}s", min_periods=m), how)()
+    expected = op(s)
+    spec = ctx.lean(Sym("tspec"), Sym(how), mm, W, _trows(t, cells))
+    ctx.eq("pandas rolling('%ds').%s vs Lean spec" % (W, how), U.sexp_to_cells(spec), U.series_cells(expected))
+    # (b) the partitions each prepend task reads (fast path / slow path, the while loop)
+    delta = pd.Timedelta(seconds=W)
+    if len(lens) > 1:
+        layer = CreateOverlappingPartitions(d.expr, delta, 0)._layer()
+        slow = bool(ctx.lean(Sym("tslow"), W, divs))
+        pieces = [s.iloc[b[i]:b[i + 1]] for i in range(len(lens))]
+        for key, task in layer.items():
+            if isinstance(key[0], str) and key[0].startswith("overlap-prepend") and len(key) == 2:
+                i = key[1]
+                ks = [k[1] for k in task[2]]
+                if slow:
+                    j = ctx.lean(Sym("tstart"), W, divs, i)
+                    model_ks = list(range(int(j), i + 1)) if j != "none" else "none"
+                else:
+                    model_ks = [i]
+                ctx.eq("partitions read by prepend task %d" % i, model_ks, ks)
+                # (c) _tail_timedelta on the real partitions
+                real = _tail_timedelta(pieces[i + 1], [pieces[k] for k in ks], delta)
+                mt = ctx.lean(Sym("ttail"), W, parts_rows[i + 1], [parts_rows[k] for k in ks])
+                ctx.eq("_tail_timedelta", [[int(a), None if (c is None or c == "none") else int(c)] for a, c in mt],
+                       [[int((ix - base).total_seconds()), U.cell_of(v)] for ix, v in real.items()])
+        if slow:
+            ctx.branch("toverlap-slow-path")
+            if any(len(task[2]) > 1 for key, task in layer.items() if isinstance(key[0], str) and key[0].startswith("overlap-prepend")):
+                ctx.branch("toverlap-several-partitions-prepended")
+        else:
+            ctx.branch("toverlap-fast-path")
+    # (d) the lowered expression, partition by partition, vs the model; the whole vs pandas
+    model = ctx.lean(Sym("toverlap"), Sym(how), mm, W, divs, parts_rows)
+    try:
+        r = op(d)
+        got_parts = U.compute_parts(r)
+        got = r.compute(scheduler="sync")
+    except Exception as e:
+        ctx.fail(f"rolling('{W}s').{how} raised {type(e).__name__}", observed=f"{type(e).__name__}: {e}"[:300])
+        return
+    ctx.eq("rolling('%ds').%s partitions" % (W, how), [Sym("ok"), U.parts_to_sexp([U.series_cells(p) for p in got_parts])]
+           if False else ["ok", [U.series_cells(p) for p in got_parts]],
+           [str(model[0]), U.sexp_to_parts(model[1])] if model[0] == "ok" else model)
+    try:
+        pd.testing.assert_series_equal(got, expected, check_exact=False, rtol=1e-9, atol=1e-9, check_freq=False)
+    except AssertionError as e:
+        ctx.fail(f"rolling('{W}s', min_periods={m}).{how} differs from pandas", observed=str(e)[:300])
+        return
+    if any(n == 0 for n in lens):
+        ctx.branch("toverlap-empty-partition")
+    if len(set(t)) < len(t):
+        ctx.branch("toverlap-duplicate-timestamps")
+    ctx.branch("toverlap-" + how)
+
+
 CASES = {"takelast": case_takelast, "agg": case_agg, "combined": case_combined, "cum": case_cum,
-         "cumdf": case_cumdf, "overlap": case_overlap, "api": case_api}
+         "cumdf": case_cumdf, "overlap": case_overlap, "api": case_api, "toverlap": case_toverlap}
 
 
 # ------------------------------------------------------------------------------------------------
@@ -614,6 +695,29 @@ def gen_api(rng):
     return inp
 
 
+def gen_toverlap(rng):
+    """integer-second timestamps (unique or with duplicates kept inside one partition), partitions narrower and wider than
+    the window, empty partitions"""
+    base = gen_time_window(rng)
+    t, lens = base["tindex"], base["lens"]
+    if rng.random() < 0.3:
+        # duplicates: repeat some timestamps (boundaries are snapped so that equal labels stay in one partition)
+        t2 = []
+        for x in t:
+            t2.extend([x] * rng.choice([1, 1, 1, 2, 3]))
+        n = len(t2)
+        cuts = sorted(rng.randint(0, n) for _ in range(len(lens) - 1))
+        lens = U.snap_lens(t2, [b - a for a, b in zip([0] + cuts, cuts + [n])])
+        t = t2
+    elif rng.random() < 0.3:
+        # an empty partition somewhere
+        i = rng.randrange(len(lens) + 1)
+        lens = lens[:i] + [0] + lens[i:]
+    w = int(base["params"]["window"][:-1])
+    return {"tindex": t, "lens": lens, "cells": U.gen_cells(rng, len(t), p_nan=rng.choice([0.0, 0.15, 0.4])), "window": w,
+            "how": rng.choice(["sum", "sum", "count"]), "min_periods": rng.choice([None, 1, 2, 0])}
+
+
 def generate(ctx):
     rng = ctx.rng
     # --- function level: TakeLast, aggregates (exhaustive small spaces) -------------------------
@@ -632,6 +736,9 @@ def generate(ctx):
     for _ in range(ctx.n(60, 600)):
         yield "takelast", {"cells": U.gen_cells(rng, rng.randint(0, 8)), "skipna": rng.random() < 0.5,
                            "dtype": "float64"}
+    # --- time-based windows (timedelta branch of the overlap machinery) -------------------------
+    for _ in range(ctx.n(45, 900)):
+        yield "toverlap", gen_toverlap(rng)
     # --- _combined_parts --------------------------------------------------------------------------
     for _ in range(ctx.n(120, 1500)):
         b, a = rng.choice([0, 1, 2, 3]), rng.choice([0, 0, 1, 2])
